@@ -118,32 +118,50 @@ def plan(tier, seed):
 
 
 def oracle(ctx):
+  fails = _check_model(ctx, ctx.outcome.model, '')
+  # "never returns a model that violates any of these": also the model returned
+  # by a SECOND quantize() on the same Quantizer object (shipped recipes only,
+  # to bound the cost)
+  if ctx.subkey.startswith('R1:') and ctx.outcome.qt is not None:
+    import copy
+    try:
+      again = bytes(ctx.outcome.qt.quantize(
+          copy.deepcopy(ctx.outcome.cal_snapshot)).quantized_model)
+    except Exception:
+      again = None   # raising is allowed
+    if again is not None and again != ctx.outcome.model:
+      fails.extend(_check_model(ctx, again, 'second_call_'))
+  return fails
+
+
+def _check_model(ctx, model, prefix):
+  from vf import fbparse
   fails = []
-  pm = ctx.pm
+  pm = ctx.pm if not prefix else fbparse.parse(model)
   for kind, detail in wellformed.check(pm):
-    fails.append(ctx.fail(kind, detail, facts=_facts(ctx, kind, detail)))
+    fails.append(ctx.fail(prefix + kind, detail, facts=_facts(ctx, kind, detail)))
   # runtime: allocate + invoke, signature runner and plain I/O
   try:
-    it = lite.interp(ctx.outcome.model)
+    it = lite.interp(model)
   except Exception as e:
-    fails.append(ctx.fail('interp_allocate', f'{type(e).__name__}: {e}'[:400],
+    fails.append(ctx.fail(prefix + 'interp_allocate', f'{type(e).__name__}: {e}'[:400],
                           facts=_facts(ctx, 'interp_allocate', str(e))))
     return fails
   for si in range(len(ctx.built.ops)):
     try:
       data = ctx.data if si == 0 else ctx.built.input_data(si, ctx.dkind)
-      lite.run_signature(ctx.outcome.model, data, ctx.built.keys[si], it=it)
+      lite.run_signature(model, data, ctx.built.keys[si], it=it)
     except Exception as e:
-      fails.append(ctx.fail('interp_invoke_signature',
+      fails.append(ctx.fail(prefix + 'interp_invoke_signature',
                             f'signature {ctx.built.keys[si]}: '
                             f'{type(e).__name__}: {e}'[:400],
                             facts=_facts(ctx, 'interp_invoke_signature', str(e))))
   try:
-    it2 = lite.interp(ctx.outcome.model)
-    lite.run_plain(ctx.outcome.model,
+    it2 = lite.interp(model)
+    lite.run_plain(model,
                    [ctx.data[a] for a, _, _ in ctx.built.inputs[0]], it=it2)
   except Exception as e:
-    fails.append(ctx.fail('interp_invoke_plain',
+    fails.append(ctx.fail(prefix + 'interp_invoke_plain',
                           f'{type(e).__name__}: {e}'[:400],
                           facts=_facts(ctx, 'interp_invoke_plain', str(e))))
   return fails
